@@ -30,7 +30,7 @@ ASSUMPTIONS = [
     'files <= 64 kB',
 ]
 PROBES = ['two_readers_interleaved', 'span_ge3_vr', 'seg16', 'pad_ge4', 'zero_payload', 'chk_and_trail', 'vr20', 'vr16384', 'seq_with_zero',
-          'maxlen_with_zero', 'encrypted', 'pad_ge100', 'second_pass', 'history_before_scan', 'iterator_created_before_history', 'reader_reentered', 'file_object_with_foreign_fileno', 'file_object_not_at_start', 'peek_during_scan']
+          'maxlen_with_zero', 'encrypted', 'pad_ge100', 'second_pass', 'history_before_scan', 'iterator_created_before_history', 'reader_reentered', 'file_object_with_foreign_fileno', 'file_object_not_at_start', 'peek_during_scan', 'path_plain', 'path_dot', 'path_slashes', 'path_dotdot', 'path_link_dotdot']
 
 File = None
 
@@ -53,6 +53,9 @@ def generate(seed, tier):
             total = sum(s_['n'] for s_ in model['records'][i]['segs'])
             peeks[str(i)] = [rng.pick([0, 0, 1, max(0, total // 2)]), rng.pick([-1, 0, 1, 8, 8, max(1, total // 3), total + 5])]
         sc['peeks'] = peeks
+    if rng.chance(0.06):
+        sc['path_spelling'] = rng.pick(['plain', 'dot', 'slashes', 'dotdot', 'link_dotdot', 'link_dotdot'])
+        return sc
     if rng.chance(0.12):
         sc['start_offset'] = rng.pick(['end', 'end', 1, 20, 80, 84, 200])
     if rng.chance(0.1):
@@ -238,6 +241,30 @@ def first_diff(a, b):
     return min(len(a), len(b))
 
 
+def spelled_path(by, how):
+    """Writes the bytes to <scratch>/store/sub/f.dlis and returns (scratch dir, a spelling of that path):
+    plain | dot (./ components) | slashes (doubled separators) | dotdot (through a real directory and back) |
+    link_dotdot (through a symbolic link to a directory elsewhere and '..': the text 'work/latest/..' is NOT 'work')."""
+    import os
+    import shutil
+    from sim import build as simbuild
+    d = os.path.join(simbuild.scratch_root(), f'tdsim-{os.getpid()}', 'c01')
+    shutil.rmtree(d, ignore_errors=True)
+    os.makedirs(os.path.join(d, 'store', 'sub', 'inner'))
+    os.makedirs(os.path.join(d, 'work'))
+    with open(os.path.join(d, 'store', 'sub', 'f.dlis'), 'wb') as fh:
+        fh.write(by)
+    os.symlink(os.path.join(d, 'store', 'sub', 'inner'), os.path.join(d, 'work', 'latest'))
+    spelled = {
+        'plain': f'{d}/store/sub/f.dlis',
+        'dot': f'{d}/./store/./sub/./f.dlis',
+        'slashes': f'{d}//store///sub//f.dlis',
+        'dotdot': f'{d}/store/sub/inner/../f.dlis',
+        'link_dotdot': f'{d}/work/latest/../f.dlis',
+    }[how]
+    return d, spelled
+
+
 def execute(scenario):
     res = runner.Result()
     model = scenario['model']
@@ -256,8 +283,15 @@ def execute(scenario):
     if scenario.get('foreign_fileno'):
         res.probe('file_object_with_foreign_fileno')
     res.op('open')
+    path_dir = None
     try:
-        reader = File.FileRead(f)
+        if scenario.get('path_spelling'):
+            # the reader is given a path, spelled in a way that names the same file less directly
+            path_dir, spelled = spelled_path(by, scenario['path_spelling'])
+            res.probe('path_' + scenario['path_spelling'])
+            reader = File.FileRead(spelled)
+        else:
+            reader = File.FileRead(f)
         reader._enter()
     except Exception as err:
         res.violation('sul-rejected' if 'SUL' in str(err) or 'StorageUnitLabel' in type(err).__name__ else 'open-exception',
@@ -297,6 +331,9 @@ def execute(scenario):
         reader._exit()
     except Exception as err:
         res.violation('close-exception', f'{type(err).__name__}: {err}', exc=type(err).__name__)
+    if path_dir:
+        import shutil
+        shutil.rmtree(path_dir, ignore_errors=True)
     res.events.extend(f.log)
     return res
 
